@@ -1227,3 +1227,28 @@ func init() {
 	reg(tp+"NonceSize", func(m *Machine, fr *frame, a []Value) Value { return int64(12) })
 	reg(tp+"Overhead", func(m *Machine, fr *frame, a []Value) Value { return int64(16) })
 }
+
+func init() {
+	f1 := func(name string, f func(float64) float64) {
+		reg(name, func(m *Machine, fr *frame, a []Value) Value {
+			x, ok := a[0].(float64)
+			if !ok {
+				panic(pathEnd{kind: "unsupported", msg: name + " of a symbolic float"})
+			}
+			return f(x)
+		})
+	}
+	f1("math.Floor", math.Floor)
+	f1("math.Ceil", math.Ceil)
+	f1("math.Trunc", math.Trunc)
+	f1("math.Sqrt", math.Sqrt)
+	f1("math.Abs", math.Abs)
+	f1("math.Exp", math.Exp)
+	f1("math.Log", math.Log)
+	f1("math.Round", math.Round)
+}
+
+func init() {
+	// only ever formatted into an error message
+	reg("reflect.TypeOf", func(m *Machine, fr *frame, a []Value) Value { return Iface{} })
+}
